@@ -36,7 +36,8 @@ func genMux(seed uint64, n int, maxOps int, demux bool, emit func(interface{})) 
 		autoN := 0
 		explicit := []int{256, 257, 258, 4000, 32, 8189}
 		churn := r.intn(4) == 0 // configuration-heavy history (version wrap)
-		bigOnce := r.intn(3) == 0
+		bigOnce := s%4 == 0     // every fourth history carries payloads around the 16-bit PES_packet_length limit
+		bigLeft := 2
 		for i := 0; i < nops; i++ {
 			x := r.intn(100)
 			switch {
@@ -87,7 +88,12 @@ func genMux(seed uint64, n int, maxOps int, demux bool, emit func(interface{})) 
 					af = "big"
 				}
 				op := muxOp{Op: "data", PID: live[r.intn(len(live))], Hdr: hdr, AF: af}
-				op.Len = boundaryLen(r, hdr, af, bigOnce && r.intn(20) == 0)
+				op.Len = boundaryLen(r, hdr, af, false)
+				if bigOnce && bigLeft > 0 && (r.intn(6) == 0 || i >= nops-3) {
+					h := pesHeaderLen(hdr) - 6
+					op.Len = r.pick(65535-h-1, 65535-h, 65535-h+1, 65535-h-3, 65535, 65536, 70000)
+					bigLeft--
+				}
 				if hdr != "none" && r.intn(3) == 0 {
 					op.SID = r.pick(0xc0, 0xe0, 0xbd, 0xfd, 0xc5)
 				}
